@@ -149,8 +149,5 @@ Theorem escaping_prefix_never_rescued : forall fs p1 p2,
   base_path fs <> [] ->
   slen p1 + base_path_len fs < PATH_MAX - 2 -> pathcat fs p1 = PcOk PNull ->
   pathcat fs (p1 ++ SLASH :: p2) = PcOk PNull.
-Proof.
-  intros fs p1 p2 Hb Hlen H.
-  exact (escaping_prefix_never_rescued_lemma fs p1 p2 Hb (refused_short_escapes fs p1 Hb Hlen H)).
-Qed.
+Proof. exact escaping_prefix_never_rescued_full. Qed.
 Print Assumptions escaping_prefix_never_rescued.
